@@ -556,6 +556,12 @@ def run(chk, replay=None):
 
     # ---- multi-node histories of config history ids on real ConfigActors
     clusters = [witness_lost_mark()]
+    if replay:
+        rp = json.load(open(replay))["replay"]
+        if isinstance(rp, dict) and isinstance(rp.get("case"), dict) and "class" in rp["case"]:
+            c = rp["case"]
+            c["ops"] = [tuple(tuple(x) if isinstance(x, list) and o[0] == "hist" and i == 1 else x for i, x in enumerate(o)) for o in c["ops"]]
+            clusters.append(c)
     for _ in range(120 if quick else 2000):
         clusters.append(gen_cluster(rng, False))
     for _ in range(30 if quick else 300):
